@@ -2,7 +2,7 @@
 
     Reading.  [deep_search oracles c item obj] models DeepSearch(obj, item, **c) for ANY item
     of the value universe (atom or container); it returns
-    [RRaise] (TypeError) or [ROk evs], evs being the reports in the order the code makes them:
+    [RRaise] (the TypeError of __init__) or [ROk evs], evs being the reports in the order the code makes them:
     [EvValue q v] = matched_values entry for the key sequence q, [EvPath q v] = matched_paths
     entry, [EvAttr q n] = matched_paths entry for the bound method n of the str at q (finding
     K16f).  [prepare] is the item normalisation of __init__; (cs, it) is the normalised item.
@@ -196,48 +196,32 @@ Theorem C16_guards_satisfiable :
 Proof. exact guards_satisfiable. Qed.
 Print Assumptions C16_guards_satisfiable.
 
-(* when exactly the constructor raises TypeError: all inputs.  Since /repo commits 9553299 and
-   49764d9 (finding K16d fixed) [raises_spec] only holds when a number is entered by the search
-   while the item is a bytes pattern and strict_checking is off *)
-Theorem C16_raise_exact :
+(* DeepSearch never raises, apart from the documented TypeError of __init__ ("The passed item
+   ... is not usable for regex"): for ALL objects, items and modes the constructor raises exactly
+   when use_regexp is on and the item is neither a str / bytes nor a number that loose mode turns
+   into its text.  (Findings K16d / K16i, the TypeErrors of the traversal, are fixed in /repo by
+   9553299, 49764d9, bcd9dc1 and the model follows: it has no raise event any more.) *)
+Theorem C16_never_raises :
   forall (brepr : pystr -> pystr) (re_search excl_re : pystr -> bool) (re_text : pystr)
          (sa ba : list pystr) (c : config) (item : value) (obj : value),
-    wf obj = true ->
     deep_search brepr re_search excl_re re_text sa ba c item obj = RRaise <->
-    prepare brepr c item = PRaise \/
-    (exists (cs : bool) (it : eitem),
-        prepare brepr c item = PItem cs it /\ raises_spec brepr excl_re c cs it obj = true).
-Proof. exact final_raise_exact. Qed.
-Print Assumptions C16_raise_exact.
+    use_regexp c = true /\ item_is_text item = false /\ loose_number c item = false.
+Proof. exact never_raises. Qed.
+Print Assumptions C16_never_raises.
 
-(* DeepSearch is still not total (K16i): a bytes regular expression with strict_checking=False
-   raises on the first number, DeepSearch([1], b'1', use_regexp=True, strict_checking=False) ... *)
-Theorem C16_never_raises_refuted :
-  wf k16i_obj = true /\
-  prepare id_repr k16i_cfg k16i_item <> PRaise /\
-  deep_search id_repr no_re no_re [] [] [] k16i_cfg k16i_item k16i_obj = RRaise.
-Proof. exact no_raise_refuted. Qed.
-Print Assumptions C16_never_raises_refuted.
-
-(* ... and that is the only way: for EVERY object (bytes included), whenever the item is not a
-   bytes object, or strict_checking is on, or use_regexp is off, the only TypeError is the
-   documented one of __init__ (use_regexp with a non-string item) *)
-Theorem C16_never_raises_partial :
-  forall (brepr : pystr -> pystr) (re_search excl_re : pystr -> bool) (re_text : pystr)
-         (sa ba : list pystr) (c : config) (item : value) (obj : value),
-    wf obj = true ->
-    item_not_bytes item || strict c || negb (use_regexp c) = true ->
-    deep_search brepr re_search excl_re re_text sa ba c item obj = RRaise ->
-    prepare brepr c item = PRaise.
-Proof. exact no_raise_partial. Qed.
-Print Assumptions C16_never_raises_partial.
-
-(* the former K16d witness now returns a result: the str item is found in the str only *)
+(* the former K16d / K16i witnesses now return results: a str item is found in the str only;
+   a bytes pattern is found in the bytes only and is not applied to the text of a number *)
 Theorem C16_str_in_bytes_not_found :
   deep_search id_repr no_re no_re [] [] [] k16f_cfg k16d_item k16d_obj
   = ROk [EvValue [SIdx 1] (VAtom (AStr (s2p "abc")))].
 Proof. exact str_in_bytes_not_found. Qed.
 Print Assumptions C16_str_in_bytes_not_found.
+
+Theorem C16_bytes_pattern_on_numbers :
+  deep_search id_repr k16i_re no_re [] [] [] k16i_cfg k16i_item k16i_obj
+  = ROk [EvValue [SIdx 1] (VAtom (ABytes (s2p "1")))].
+Proof. exact bytes_pattern_on_numbers. Qed.
+Print Assumptions C16_bytes_pattern_on_numbers.
 
 (* the result dictionary matched_values (keyed by path text): every entry comes from a
    reported location with that text and that value, and every reported location's text is a key *)
